@@ -37,7 +37,7 @@ TEMPLATES_THOROUGH = TEMPLATES_QUICK + [
 ]
 
 BOUNDS = {
-    'quick': 'R1/R2: 1 file x {1,2} entries x {0,1,2} ranges, or 2 files x 1 entry x 1 range; path = one of %d templates with <=3 fully symbolic bytes (0x01-0x7f minus LF) plus concrete multi-byte scalars; hash = 2 symbolic printable non-space bytes; line numbers symbolic u32 <= 99 (one shape near u32::MAX); base sha 4 symbolic hex; R3: every text of <= 5 bytes over {\" SP - , 0 9 a LF CR TAB} and the same text followed by LF---LF{}; R4: remap with 8-hex symbolic target' % len(TEMPLATES_QUICK),
+    'quick': 'R1/R2: 1 file x 1 entry x {0,1,2} ranges, 1 file x 2 entries x 1 range, or 2 files x 1 entry x 1 range; path = one of %d templates with <=3 fully symbolic bytes (0x01-0x7f minus LF) plus concrete multi-byte scalars; hash = 2 symbolic printable non-space bytes; line numbers symbolic u32 <= 99 (one shape near u32::MAX); base sha 4 symbolic hex; R3: every text of <= 5 bytes over {\" SP - , 0 9 a LF CR TAB} and the same text followed by LF---LF{}; R4: remap with 8-hex symbolic target' % len(TEMPLATES_QUICK),
     'thorough': 'as quick with %d path templates (<=4 symbolic bytes), <=3 ranges per entry, 2 files x 2 entries, three digit-length classes per number; R3 texts <= 7 bytes' % len(TEMPLATES_THOROUGH),
 }
 OUTSIDE = 'paths containing LF or NUL; hashes containing whitespace (the standard requires hex); prompt records are opaque to the codec model (serde_json is trusted for the JSON half); logs with more than 2 files / 3 ranges; line numbers with 3-9 digits'
@@ -56,9 +56,7 @@ def plan(tier, seed):
     for ti in range(len(T)):
         for ne in (1, 2):
             for nr in range(0, maxr + 1):
-                if ne == 2 and nr == 0:
-                    continue
-                if ne == 2 and ti > 2 and tier == 'quick':
+                if ne == 2 and (nr != 1 or (ti > 2 and tier == 'quick')):
                     continue
                 tasks.append(('roundtrip', {'files': [{'t': ti, 'entries': [nr] * ne}], 'big': False}))
     tasks.append(('roundtrip', {'files': [{'t': 0, 'entries': [2]}], 'big': True}))
